@@ -554,6 +554,9 @@ func driveC15(seed int64, tier, out, replay string) {
 				for j := 0; j < 12; j++ {
 					c.Ops = append(c.Ops, og.operation())
 				}
+				// the introspection entry points of the query root, and operation kinds the schema may lack
+				c.Ops = append(c.Ops, "query { __schema { queryType { name } } }", "query { __type(name: \"Obj0\") { name } }",
+					"mutation { __typename }", "subscription { __typename }")
 			}
 			cases = append(cases, c)
 		}
